@@ -188,13 +188,21 @@ pub fn explore(cfg: &Config, p: &SeqParams, col: &mut Collector) -> SeqStats {
     let mut frontier = vec![s0];
     let mut bytes2: Vec<u8> = Vec::new();
     let mut capped = false;
+    // memory cap: the stored states of one configuration (current level + next level) may
+    // use at most VERIF_SEQ_MEM_MB (default 16 GiB / worker threads); beyond it the
+    // configuration is reported as capped instead of exhausting the machine's memory
+    let mem_limit = mem_limit_per_config();
+    let state_size = |s: &State| s.bytes.len() + s.model.cells.len() + 64 * s.model.held.len() + 48 * s.path.len() + 256;
+    let mut mem_frontier: usize = frontier.iter().map(state_size).sum();
     'outer: for depth in 1..=p.depth {
         let mut next: Vec<State> = Vec::new();
+        let mut mem_next = 0usize;
         for st in &frontier {
             let ops = alphabet(&st.model, cfg, &p.profile);
             for op in &ops {
                 if stats.states as usize >= p.max_states
                     || start.elapsed().as_secs_f64() > p.max_secs
+                    || mem_frontier + mem_next > mem_limit
                 {
                     capped = true;
                     break 'outer;
@@ -270,6 +278,7 @@ pub fn explore(cfg: &Config, p: &SeqParams, col: &mut Collector) -> SeqStats {
                         // states violating the decided property (or diverging from the
                         // model) are not expanded further
                         if !blocked(&viol) {
+                            mem_next += state_size(&ns);
                             next.push(ns);
                         }
                     }
@@ -281,6 +290,7 @@ pub fn explore(cfg: &Config, p: &SeqParams, col: &mut Collector) -> SeqStats {
         }
         stats.depth_completed = depth;
         frontier = next;
+        mem_frontier = mem_next;
         if frontier.is_empty() {
             break;
         }
@@ -296,6 +306,15 @@ pub fn explore(cfg: &Config, p: &SeqParams, col: &mut Collector) -> SeqStats {
         "transitions": stats.transitions, "depth_completed": stats.depth_completed,
         "capped": capped, "secs": start.elapsed().as_secs_f64()}));
     stats
+}
+
+fn mem_limit_per_config() -> usize {
+    let workers = std::thread::available_parallelism().map(|n| n.get()).unwrap_or(4);
+    let mb = std::env::var("VERIF_SEQ_MEM_MB")
+        .ok()
+        .and_then(|s| s.parse::<usize>().ok())
+        .unwrap_or(16 * 1024 / workers);
+    mb * 1024 * 1024
 }
 
 /// Run many configurations on all cores
